@@ -107,8 +107,38 @@ def _render(ctx, o, fname="to_dict"):
     return f, paths
 
 
+LOSSY = {"len", "hash", "id", "type", "bool", "any", "all", "min", "max", "sum", "sorted", "set", "frozenset"}
+
+
 def _has(v, s):
-    return mentions(v, lambda t: t is s)
+    """Does the symbol s reach v without passing through an operation that forgets most of it (len(), hash(), a slice ...)?"""
+    if v is s:
+        return True
+    from ..absint import Builtin
+    if isinstance(v, Term):
+        if v.op == "call" and isinstance(v.args[0], Builtin) and v.args[0].name in LOSSY:
+            return False
+        if v.op == "sub" and isinstance(v.args[1], Term) and v.args[1].op == "slice":
+            return False
+        if v.op == "cmp":
+            return False
+        for a in v.args:
+            if isinstance(a, (Term, Obj, Tup, Lst, Dct)) and _has(a, s):
+                return True
+            if isinstance(a, (list, tuple)):
+                for b in a:
+                    if isinstance(b, (Term, Obj, Tup, Lst, Dct)) and _has(b, s):
+                        return True
+                    if isinstance(b, (list, tuple)):
+                        for c_ in b:
+                            if isinstance(c_, (Term, Obj, Tup, Lst, Dct)) and _has(c_, s):
+                                return True
+        return False
+    if isinstance(v, (Tup, Lst)):
+        return any(_has(x, s) for x in v.items)
+    if isinstance(v, Dct):
+        return any(_has(k, s) or _has(x, s) for k, x in v.pairs)
+    return False
 
 
 def _check_part_render(ctx, rule, inst, f, R, c, syms):
@@ -296,7 +326,7 @@ def rule_eq(ctx):
         for k in attrs:
             def ch(k=k, ci=ci):
                 o = _concrete_instance(ctx, ci)
-                o.attrs[k] = Const("CHANGED")
+                o.attrs[k] = Const(_flip(o.attrs[k].v))
                 return o
             def dr(k=k, ci=ci):
                 o = _concrete_instance(ctx, ci)
@@ -310,7 +340,7 @@ def rule_eq(ctx):
                 for ck in [k for k in kids.items[i].attrs if not k.startswith("__")]:
                     def chc(i=i, ck=ck, ci=ci):
                         o = _concrete_instance(ctx, ci)
-                        o.attrs["children"].items[i].attrs[ck] = Const("CHANGED")
+                        o.attrs["children"].items[i].attrs[ck] = Const(_flip(o.attrs["children"].items[i].attrs[ck].v))
                         return o
                     perts.append((f"child #{i}: '{ck}' changed", chc))
                 def drop(i=i, ci=ci):
@@ -396,6 +426,11 @@ def rule_eq(ctx):
     if not bad:
         ctx.holds("C20.EQ", "indi/message/base.py::IndiMessage.__eq__", f"{n} evaluations: rebuilt copies equal; every single-point perturbation (attribute, text, each child changed/dropped/duplicated/swapped, kind) unequal, in both argument orders", fi=f_last)
     ctx.exhaustive_domains.append("every concrete message class x every single-point perturbation of the property's quantifier")
+
+
+def _flip(s: str) -> str:
+    """A different string of the same length (so that a rendering that keeps only the length is caught)."""
+    return s[:-1] + ("#" if s[-1] != "#" else "%")
 
 
 def _pert_class(what: str) -> str:
